@@ -201,7 +201,13 @@ def run_stream(ctx, n_tri):
         reqs.clear()
         post.clear()
 
+    def enough():
+        # a failing input has been found (and recorded with its wire form): no need to pile up more
+        return len(ctx.spec_failures) >= 40
+
     for ti in range(n_tri):
+        if enough():
+            break
         if ti % 400 == 399:
             flush()
         cells, info = rand_cumulative(rng)
@@ -322,6 +328,8 @@ def run_stream(ctx, n_tri):
 
     # 7. a stream of directly generated complete incremental triangles (not obtained by conversion)
     for di in range(n_tri // 6):
+        if enough():
+            break
         if di % 1000 == 999:
             flush()
         cells = gen.rand_cells(rng, kind="I", vkind=rng.choice(VKINDS),
